@@ -142,6 +142,7 @@ func checkC09(c *Check) {
 			continue
 		}
 		for i, st := range stores {
+			c.SawFunc(topFunc(st.Parent()).String())
 			es := pc.elemsOf(st.Val, st, 0, map[ssa.Value]bool{})
 			bad := ""
 			for _, o := range es {
